@@ -119,7 +119,7 @@ class CodecMonitor(Monitor):
 class C09(UdpCheck):
     pid = "C09"
     budget = {"quick": 70, "thorough": 800}
-    ncases = {"quick": 450, "thorough": 30000}
+    ncases = {"quick": 900, "thorough": 40000}
     rule = ("case = swarm config (every MTU class) + send histories with empty payloads, bursts of up to 400 tiny messages in "
             "one frame, lengths around every capacity boundary, all retry modes so that resend and new messages share "
             "datagrams, both directions, light loss; every emitted datagram is decoded by an independent reference codec; "
